@@ -31,6 +31,7 @@ def H(fn, covers=("end",), q=None, t=None, **kw):
 PROPS = {}
 
 PROPS["C15"] = {
+    "strict_witness": True,
     "level": "model_checking",
     "explanation": "bounded symbolic execution of super.MkFsSuper (all sizes < 2^40) and of the real mkfs path (makeFs/markAlloc) on listed sizes with a symbolic bit witness; assertions decided by z3",
     "assumptions": ["disk contract: a fresh disk reads as zeroes"],
@@ -42,6 +43,7 @@ PROPS["C15"] = {
 }
 
 PROPS["C10"] = {
+    "strict_witness": True,
     "level": "model_checking",
     "explanation": "symbolic round-trip of the inode, directory-entry and file-handle codecs on fully symbolic fields; cache/disk coherence after one symbolic RPC step",
     "assumptions": JOURNAL,
@@ -66,18 +68,25 @@ PROPS["C06"] = {
 
 C11Q = {"unwind_is_violation": 1, "disksz": 10000, "dirslots": 3, "namecmp": 2, "bbytes": 2, "bblocks": 2, "inums": 2, "offsets": 1, "fixstable": 1, "zeroalloc": 0, "oneblock": 1}
 C11T = {"unwind_is_violation": 1, "disksz": 10000, "dirslots": 4, "namecmp": 2, "bbytes": 4, "bblocks": 3, "inums": 5, "offsets": 2, "longnames": 1, "zeroalloc": 0}
+# per-procedure bounds: objects that can be freed inline are small (sizeblocks) in the directory procedures
+C11X = {n: {"sizeblocks": 2, "inums": 1} for n in ["Create", "Mkdir", "Symlink", "Remove", "Rmdir", "Rename"]}
+C11X["Setattr"] = {"inums": 1, "plainattrs": 1}
+C11X["Write"] = {"inums": 1}
+C11XT = {n: {"sizeblocks": 3, "inums": 2} for n in ["Create", "Mkdir", "Symlink", "Remove", "Rmdir", "Rename"]}
 PROPS["C11"] = {
     "unclaimed": True,
     "level": "model_checking",
     "explanation": "every NFS/MOUNT procedure of nfs.Nfs executed symbolically on unconstrained arguments from an arbitrary valid file system; a feasible path ending in a Go panic, a >64MB allocation, a re-acquired lock or an exceeded loop bound is a violation",
     "assumptions": JOURNAL + ["pre-state satisfies the representation invariant Inv (DESIGN.md §4), instantiated at every inode/dirent the path decodes"],
     "outside": ["transfers of more than B_bytes per partial block / B_blocks blocks", "rfc1057 record marking and the TCP loop", "in-block inode slots other than R_slot in the quick tier"],
-    "harnesses": [H("nfs.VerifC11" + n, covers=(), q=C11Q, t=C11T, lmax=2, budget_s=200, budget_s_t=1500) for n in
-                  ["Getattr", "Write"]],
+    "harnesses": [H("nfs.VerifC11" + n, covers=(), q=dict(C11Q, **C11X.get(n, {})), t=dict(C11T, **C11XT.get(n, {})), lmax=3, budget_s=300, budget_s_t=2400) for n in
+                  ["Getattr", "Setattr", "Lookup", "Access", "Readlink", "Read", "Write", "Create", "Mkdir", "Symlink", "Mknod", "Remove",
+                   "Rmdir", "Rename", "Link", "Readdir", "Readdirplus", "Fsstat", "Fsinfo", "Pathconf", "Commit", "Mount"]],
 }
 
 
 PROPS["C17"] = {
+    "strict_witness": True,
     "level": "model_checking",
     "explanation": "each simple.Nfs procedure executed symbolically against the 30-files-of-4096-bytes specification on the same symbolic arguments and symbolic disk; replies and witness post-state compared; journal monitor for single durable append",
     "assumptions": JOURNAL + ["pre-state: inode i has Data = 514+i and Size <= 4096 (the invariant established by simple.Mkfs; preservation is asserted)"],
@@ -93,6 +102,7 @@ PROPS["C17"] = {
 }
 
 PROPS["C18"] = {
+    "strict_witness": True,
     "level": "model_checking",
     "explanation": "kvs.MultiPut/Get executed symbolically over the journal contract with symbolic keys (possibly equal) and symbolic 4096-byte values; single append, durable before return, last-writer-wins at a witness byte, Get returns it",
     "assumptions": JOURNAL,
@@ -122,6 +132,7 @@ class _XdrHarnesses(list):
 
 
 PROPS["C16"] = {
+    "strict_witness": True,
     "level": "model_checking",
     "genxdr": True,
     "explanation": "for every nfstypes type with an Xdr method (harness generated from the current source): a symbolic value is encoded by nfstypes and, converted field by field, by go-rpcgen's independent rfc1813 package; byte equality, round trip, cross decoding and truncation rejection are decided by z3; the 28 registrations are executed with a recording handler",
@@ -136,8 +147,12 @@ def is_monitor_label(label):
 
 
 def items(prop, tier, seed):
+    import os, re
+    only = os.environ.get("VERIF_ONLY")
     out = []
     for h in PROPS[prop]["harnesses"]:
+        if only and not re.search(only, h["fn"]):
+            continue
         params = h["q"] if tier == "quick" else (h["t"] if h["t"] is not None else None)
         if params is None:
             continue
